@@ -112,11 +112,19 @@ func main() {
 		os.Exit(1)
 	}
 	var normNotes []string
+	curProgramRenamed = p0.renamed
+	normNotes = append(normNotes, p0.Notes...)
+	for _, n := range p0.Notes {
+		fmt.Printf("note: %s\n", n)
+	}
 	if !*noNorm {
-		p0, normNotes = normalizeProgram(p0)
-		for _, n := range normNotes {
+		var nn []string
+		p0, nn = normalizeProgram(p0)
+		curProgramRenamed = p0.renamed
+		for _, n := range nn {
 			fmt.Printf("note: %s\n", n)
 		}
+		normNotes = append(normNotes, nn...)
 	}
 	if *dumpNorm != "" {
 		for name, b := range p0.overlay {
